@@ -542,3 +542,5 @@ def check(run, prog):
     rule_lossless_read(run, prog, "R-7.6")
     from .snippet_rules import rule_statement_extent
     rule_statement_extent(run, prog)         # R-7.7
+    from .snippet_rules import rule_unrecognisable_fragments
+    rule_unrecognisable_fragments(run, prog)  # R-7.8
